@@ -317,6 +317,19 @@ def run(ctx):
         ident = kw + 'y' * 255 + kw[-1]
         add_buf('long_ident_keyword_name', 'table %s { %s:int; }\n' % (ident.capitalize(), ident), None, opts='-', gen=2)
         add_buf('long_ident_keyword_name', 'table T { %s:int; }\n' % ident, 'accept', opts='-', gen=2)
+    # ---- 4g: string valued attributes / declarations with empty, one character, dot-only, leading / trailing dot values
+    svals = ['', '.', '..', '...', 'T', '.T', 'T.', 'N.T', 'N..T', '.N.T', 'N.T.', ' ', 'a b', '\\', 'T' * 300, '.' * 300, 'N.' * 60 + 'T', 'é']
+    for k, v in enumerate(svals):
+        texts = ['table T { nest:[ubyte] (nested_flatbuffer: "%s"); }\n' % v,
+                 'namespace N;\ntable T { a:int; }\ntable U { nest:[ubyte] (nested_flatbuffer: "%s"); x:[ubyte] (nested_flatbuffer: "%s", base64); }\n' % (v, v),
+                 'table T { a:int (key: "%s", id: "%s", deprecated: "%s"); b:string (required: "%s", hash: "%s"); }\n' % (v, v, v, v, v),
+                 'struct S (force_align: "%s") { a:int (key: "%s"); }\nenum E:int (bit_flags: "%s") { A }\n' % (v, v, v),
+                 'attribute "%s";\ntable T { a:int (%s); }\n' % (v, v if v.isalnum() else 'x'),
+                 'table T { a:int; }\nroot_type T;\nfile_identifier "%s";\nfile_extension "%s";\n' % (v, v)]
+        for t in texts:
+            add_buf('attr_strings', t, opts=rng.choice([GEN_SETS[2], 'bgen_bfbs=1', 'cgen_reader=1']), gen=2)
+        add_file('attr_strings_file', {'a.fbs': 'include "%s";\ntable A { x:int; }\n' % v}, 'a.fbs', None, gen=2)
+        add_file('attr_strings_file', {'a.fbs': 'include "b.fbs";\ntable A { x:int; }\n', 'b.fbs': texts[0]}, 'a.fbs', None, gen=2)
     # ---- 4f: empty doc comments, null options
     for t in ('/**/table T { a:int; }\n/* x */', '/**/', '/**/ struct S { /**/ a:int; /**/ }\n', 'table T { a:int; } /**/\n/**/', '/*/ table T { a:int; } */', '/**', '/***/table T { a:int; }'):
         for o in (GEN_SETS[2], 'bgen_bfbs=1'):
